@@ -10,6 +10,7 @@ C06 - an exit node never emits traffic its exit policy forbids.
 from __future__ import annotations
 
 import asyncio
+import json
 import struct
 
 from .. import vloop
@@ -116,8 +117,13 @@ def _sweep_shard(ctx: Ctx, shard: int, nshards: int, lengths: list, b1_values: l
                                     elif last == b"x":
                                         continue
                                     d = bytes(body[:n])
-                                    for fs in flag_sets():
-                                        exit_node.overlay.settings.peer_flags = fs | {RELAY}
+                                    for fi, fs in enumerate(flag_sets()):
+                                        if (n + fi) % 2:
+                                            exit_node.overlay.settings.peer_flags = fs | {RELAY}
+                                        else:
+                                            # reconfigured in place
+                                            exit_node.overlay.settings.peer_flags.clear()
+                                            exit_node.overlay.settings.peer_flags.update(fs | {RELAY})
                                         got = sock.is_allowed(d)
                                         want = ref_allowed(d, fs, prefix)
                                         key = ((((((b0 << 8 | b1) * 80 + n) * 4 + ti) * 3 + (b"e", b"x", None).index(last)) * 2 + pfx) * 4
@@ -200,7 +206,8 @@ class Emission:
             self.info["cls"] = "emit:%s:%s:%s" % (c["direction"], c["kind"], "allow" if want else "deny")
             self.info["nontrivial"] = (not want) or boundary(payload) or c["dest"][0] == "0.0.0.0" or c["first_src"] != "prev"
             self.info["desc"] = (tuple(sorted(exit_flags)), c["kind"], len(payload), c["direction"], c["dest"][0],
-                                 c["first_src"], hops, tuple(map(tuple, c.get("followups", []))), c.get("in_via", "v4"))
+                                 c["first_src"], hops, tuple(map(tuple, c.get("followups", []))), c.get("in_via", "v4"),
+                                 json.dumps(c.get("reflag"), sort_keys=True))
             exit_peer = [p for p in origin.overlay.candidates if p.public_key.key_to_bin() == exit_node.key.pub().key_to_bin()][0]
             if not exit_flags:
                 # a node without any flag ignores create requests: no circuit, nothing can be emitted
@@ -274,6 +281,20 @@ class Emission:
                               f"{[(d[:16].hex(), a) for d, a in expected]} (flags {sorted(fs)}, dest {dest_t})")
                 # later packets on the same circuit: the gate must not depend on the socket being fresh
                 for j, (kind2, size2, di) in enumerate(c.get("followups", [])):
+                    rf = c.get("reflag")
+                    if rf is not None and j == rf["at"] % len(c["followups"]):
+                        # the operator reconfigures the exit while the circuit is in use: what is configured at the
+                        # moment of the packet decides
+                        fs = set(rf["flags"])
+                        new_flags = fs | ({RELAY} if c["relay"] else set())
+                        if rf["how"] == "assign":
+                            exit_node.overlay.settings.peer_flags = new_flags
+                        else:
+                            cur = exit_node.overlay.settings.peer_flags
+                            for f in list(cur):
+                                if f not in new_flags:
+                                    cur.discard(f)
+                            cur |= new_flags
                     dt2 = tuple(DESTS[di % len(DESTS)])
                     p2 = make_payload(kind2, size2, prefix, c["seed"] + j + 1)
                     want2 = ref_allowed(p2, fs, prefix) and dt2[0] not in NULL_DESTS + ("unknown.invalid",)
@@ -379,6 +400,9 @@ def _strategy():
         "in_via": st.sampled_from(["v4", "v4", "v6", "v6mapped"]),
         "followups": st.lists(st.tuples(st.sampled_from(KINDS), st.sampled_from([2, 12, 23, 64, 300]),
                                         st.integers(0, len(DESTS) - 1)).map(list), max_size=3),
+        "reflag": st.none() | st.fixed_dictionaries({
+            "at": st.integers(0, 2), "how": st.sampled_from(["assign", "inplace"]),
+            "flags": st.sampled_from([[], [EXIT_BT], [EXIT_IPV8], [EXIT_BT, EXIT_IPV8]])}),
         "seed": st.integers(0, 1000),
     })
 
